@@ -45,9 +45,7 @@ PARTIAL = ("time-driven work covered by theorems: query retransmissions, hostnam
            "bound on iterations per second, as search support. 'Number of iterations "
            "per unit of virtual time' is proved as: every wake-up moves strictly forward (a stale timer of a stopped "
            "search or of a changed interval still causes one wake-up without work - observed, not a spin). "
-           "The granted wake-up is a parameter of the theorems (any later time is allowed). The monitor theorem "
-           "chk_C12_monitor_holds is stated for hazard-free histories (known finding C13-timeout-late-rerun); "
-           "wake_covers_work and no_spin themselves hold for all histories.")
+           "The granted wake-up is a parameter of the theorems (any later time is allowed).")
 HARNESS_ARGS = ["sim"]
 PER_SHARD = 8
 
